@@ -204,12 +204,14 @@ def plan_for(prop, tier, seed):
         P.add(Entry("bw_val_lf", "bytewise", "first", base, vtype="u16", values=[0, 65535, 7, 7, 9]), "T34")
         P.add(bw("find_reset", suffix="_ev"), "E:m=ovl,L=2")
         P.add(cw("astral", vtype="u16", suffix="_v"), "T34")   # 4-byte pattern chars: byte lengths
+        P.add(cw("bound", vtype="u64", suffix="_v"), "T34")    # chars at the UTF-8 width boundaries
+        P.hand += ["u_ser::bw_state", "u_ser::cw_state", "u_ser::packed"]   # output_pos / check accessors vs raw words
         from .hand import U_VAL_NAMES
         quick_vals = [n for n in U_VAL_NAMES if n.split("_")[1] in ("u8", "u128", "i64", "empty", "usize")]
         P.hand += ["u_val::" + h for h in (quick_vals if q else U_VAL_NAMES)]
     elif prop == "C07":
         fams = ("T5",)
-        for n in ("unit", "bin", "blk_1_2", "fan", "blk_2_2"):
+        for n in ("unit", "bin", "blk_1_2", "fan", "blk_2_2", "spill_nul", "nul_chain"):
             P.add(bw(n), *fams)
         for kind in ("longest", "first"):
             P.add(bw("hard_lm", kind), *fams)
@@ -246,6 +248,7 @@ def plan_for(prop, tier, seed):
             P.add(cw("w123", kind), "T1", "T2", "T34", "T5")
         if q:
             P.add(cw("astral", suffix="_len"), "T34")   # 4-byte pattern chars: output byte lengths (no mapper read)
+        P.add(cw("bound", suffix="_len"), "T34")        # chars at the UTF-8 width boundaries
         for m in ("ovl", "find", "nosuf"):
             P.add(cw("w123", suffix="_e" + m), "E:m=%s,L=2" % m)
         P.add(cw("w123", "longest", suffix="_e"), "E:m=lm,L=2")
@@ -322,9 +325,14 @@ def plan_for(prop, tier, seed):
         P.hand += ["i_bw::step_overlapping", "i_cw::step_overlapping"]
     elif prop == "C15":
         fams = ("T1", "T6")
-        for n in ("unit", "bin", "blk_1_1", "blk_1_2", "fan"):
+        for n in ("unit", "bin", "blk_1_1", "blk_1_2", "fan", "spill_nul", "nul_chain"):
             P.add(bw(n), *fams)
         P.add(bw("evict3", nfb=1, suffix="_n1"), *fams)
+        cwset = ["ab", "ba", "abab", "bbab", "aabb", "babb", "aaab", "bbba", "abba", "baab", "aaaa", "bbbb"]
+        for n in (1, 2):
+            P.add(Entry("cw_blocks_n%d" % n, "charwise", "standard", cwset, nfb=n), *fams)
+        P.add(Entry("cw_abcdef3_n16", "charwise", "standard",
+                    [a + b + c for a in "abcdef" for b in "abcdef" for c in "abcdef"]), *fams)
         for kind in ("longest", "first"):
             P.add(bw("hard_lm", kind), *fams)
             P.add(cw("w123", kind), *fams)
